@@ -153,6 +153,32 @@ def run_hour_range(case):
              key=['en-us', q, case['ref']])
 
 
+def run_expression(case):
+    got = G.parse(case['culture'], case['q'], case['ref'])
+    vs, resolved = check_entities(case['culture'], case['q'], case['ref'], got, [case['culture'], case['q']])
+    return R(vs, nontrivial=resolved, labels=['family:' + case['family']], obs={'query': case['q'], 'ref': case['ref'], 'entities': got[:3]},
+             key=[case['culture'], case['q'], case['ref']])
+
+
+def modifier_holiday_enum():
+    """every modifier x target, every holiday x year phrase (en, zh), under three references"""
+    from gens import exprs
+    refs = ['2016-11-07T08:30:00', '2019-04-05T00:00:00', '2019-12-31T23:00:00']
+    i = 0
+    for m in exprs.MODIFIERS:
+        for t in exprs.MOD_TARGETS:
+            i += 1
+            yield {'culture': 'en-us', 'q': ['{}', 'I have been busy {}', 'let us meet {} then'][i % 3].format(m + ' ' + t), 'ref': refs[i % 3], 'family': 'modifier'}
+    for h in exprs.EN_HOLIDAYS:
+        for y in exprs.EN_HOLIDAY_YEARS:
+            i += 1
+            yield {'culture': 'en-us', 'q': ['{}', 'I will be back on {}'][i % 2].format(h + y), 'ref': refs[i % 3], 'family': 'holiday'}
+    for h in exprs.ZH_HOLIDAYS:
+        for y in exprs.ZH_HOLIDAY_YEARS:
+            i += 1
+            yield {'culture': 'zh-cn', 'q': ['{}', '我{}回家'][i % 2].format(y + h), 'ref': refs[i % 3], 'family': 'holiday'}
+
+
 def hour_ranges():
     refs = ['2016-11-07T08:30:00', '2019-04-05T00:00:00']
     dates = ['on monday', 'tomorrow', 'on March 3, 2020', 'today', 'next friday']
@@ -202,4 +228,5 @@ def parts(tier, seed):
         hyp_part('generated-c06-c10', generated_cases, run_generated, 3000 if q else 60000, min_shard=200),
         enum_part('invalid-dates', invalid_enum(q), run_invalid, exhaustive=True),
         enum_part('bare-hour-ranges', hour_ranges, run_hour_range, exhaustive=True),
+        enum_part('modifiers-and-holidays', modifier_holiday_enum, run_expression, exhaustive=True),
     ]
